@@ -21,7 +21,7 @@ pub static DEF: CheckDef = CheckDef {
            smooth family adds div, powf, ln, exp, reciprocal, sigmoid, softmax with operand domains enforced from \
            actual values), mixed tracked/untracked leaves; readme: the README loop with random constants, shapes, \
            threshold and iteration count (data-dependent branch); chain: self-product chains of depth 2..60; fanin: \
-           wide sums of products sharing leaves; dag-toggles: random DAGs in which handles are used while untracked and while tracked (start/stop_tracking between uses, untracked() results); control-flow: programs written statement by statement against the library where every next statement (operation, operands, loop exit) is decided from values read back from the library's own newest array (values(), indexing, sum_all); deep-chain: multiplication chains of depth 500 / 2000 / 30000 / 100000 differentiated in a process of their own on an 8 MiB stack. Seeds omitted / ones / non-uniform integers. Non-trivial = some \
+           wide sums of products sharing leaves; dag-toggles: random DAGs in which handles are used while untracked and while tracked (start/stop_tracking between uses, untracked() results); control-flow: programs written statement by statement against the library where every next statement (operation, operands, loop exit) is decided from values read back from the library's own newest array (values(), indexing, sum_all); conv-graphs: a conv of a conv, one set of filters on two images, the same conv twice, a conv of a reshaped view, conv + bias + relu + reduction; deep-chain: multiplication chains of depth 500 / 2000 / 30000 / 100000 differentiated in a process of their own on an 8 MiB stack. Seeds omitted / ones / non-uniform integers. Non-trivial = some \
            tracked leaf received a non-zero gradient and the graph has at least two root-to-leaf paths; distinct = \
            distinct (program text without data, seed kind).",
     floors,
@@ -53,6 +53,7 @@ fn families(t: Tier) -> Vec<(&'static str, u64)> {
         ("fanin", t.n(600, 20_000)),
         ("dag-toggles", t.n(10_000, 400_000)),
         ("control-flow", t.n(6_000, 300_000)),
+        ("conv-graphs", t.n(3_000, 200_000)),
         ("deep-chain", 4),
     ]
 }
@@ -126,6 +127,77 @@ fn readme_program(r: &mut Rng) -> Program {
         }
     }
     let _ = c;
+    p
+}
+
+/// Graphs built around several convolutions: a conv of a conv, one set of filters applied to two images, the same
+/// convolution written twice, a conv of a reshaped view, conv + per-filter bias + relu + reduction.
+fn conv_program(r: &mut Rng) -> Program {
+    let mut p = Program::default();
+    let (d, cnt) = (r.range(1, 2), r.range(1, 3));
+    let (fr, fc) = (r.range(1, 2), r.range(1, 3));
+    let (sr, sc) = (r.range(1, 2), r.range(1, 2));
+    let (h, w) = (fr + r.range(1, 3), fc + r.range(1, 3));
+    let batch: Vec<usize> = match r.below(3) {
+        0 => vec![],
+        1 => vec![1],
+        _ => vec![2],
+    };
+    let di: Vec<usize> = [&batch[..], &[d, h, w]].concat();
+    let df = vec![cnt, d, fr, fc];
+    let ints = |r: &mut Rng, n: usize| -> Vec<f64> { (0..n).map(|_| r.int(-2, 2)).collect() };
+    let ni: usize = di.iter().product();
+    let nf: usize = df.iter().product();
+    let tx = !r.chance(1, 4);
+    let tf_ = !r.chance(1, 4) || !tx;
+    let vi = ints(r, ni);
+    let x = p.leaf(&di, &vi, tx);
+    let vf = ints(r, nf);
+    let f = p.leaf(&df, &vf, tf_);
+    match r.below(5) {
+        0 => {
+            // conv of a conv (1x1 or 1x2 filters on the feature maps)
+            let y = p.op(OpKind::Conv { sr, sc }, &[x, f]);
+            let c2 = r.range(1, 2);
+            let df2 = vec![c2, cnt, 1, 1];
+            let v2 = ints(r, c2 * cnt);
+            let f2 = p.leaf(&df2, &v2, !r.chance(1, 4));
+            p.op(OpKind::Conv { sr: 1, sc: 1 }, &[y, f2]);
+        }
+        1 => {
+            // one set of filters, two images, results combined
+            let v2 = ints(r, ni);
+            let x2 = p.leaf(&di, &v2, !r.chance(1, 3));
+            let y1 = p.op(OpKind::Conv { sr, sc }, &[x, f]);
+            let y2 = p.op(OpKind::Conv { sr, sc }, &[x2, f]);
+            let k = [OpKind::Add, OpKind::Mul, OpKind::Sub][r.below(3)].clone();
+            p.op(k, &[y1, y2]);
+        }
+        2 => {
+            // the same convolution written twice
+            let y1 = p.op(OpKind::Conv { sr, sc }, &[x, f]);
+            let y2 = p.op(OpKind::Conv { sr, sc }, &[x, f]);
+            p.op(OpKind::Mul, &[y1, y2]);
+        }
+        3 => {
+            // conv of a reshaped view of a flat array
+            let vflat = ints(r, ni);
+            let flat = p.leaf(&[ni], &vflat, true);
+            let v = p.op(OpKind::Reshape(di.clone()), &[flat]);
+            let y = p.op(OpKind::Conv { sr, sc }, &[v, f]);
+            let z = p.op(OpKind::Conv { sr, sc }, &[x, f]);
+            p.op(OpKind::Add, &[y, z]);
+        }
+        _ => {
+            // the layer form: conv + one bias per filter, relu, reduced over the positions
+            let vb = ints(r, cnt);
+            let b = p.leaf(&[cnt, 1, 1], &vb, true);
+            let y = p.op(OpKind::Conv { sr, sc }, &[x, f]);
+            let z = p.op(OpKind::Add, &[y, b]);
+            let a = p.op(OpKind::Relu, &[z]);
+            p.op(OpKind::Sum(2), &[a]);
+        }
+    }
     p
 }
 
@@ -230,6 +302,7 @@ pub fn gen(ctx: &Ctx, fam: &str, k: u64, r: &mut Rng) -> Program {
             p
         }
         "readme" => readme_program(r),
+        "conv-graphs" => conv_program(r),
         "chain" => chain_program(r, k),
         _ => fanin_program(r),
     }
